@@ -158,8 +158,14 @@ def ecall_program(rng):
     prog, pokes = [], []
     soff = rng.choice([0, 1, 3, 4, 6, 13, 30])
     slen = rng.choice([1, 2, 4, 5, 9])
+    # characters: plain ASCII, and bytes above 127 (printed as their low seven bits; only a zero BYTE ends the string —
+    # 0x80 has zero low bits but is not a terminator)
+    hi = rng.random() < 0.5
     for j in range(slen):
-        pokes.append((DATA + soff + j, rng.choice([65, 66, 97, 48, 126, 32])))
+        pokes.append((DATA + soff + j, rng.choice([65, 66, 97, 48, 126, 32] + ([0x80, 0x80, 0x81, 0xFF, 0xC1, 1, 127] if hi else []))))
+    if hi and slen >= 2:
+        j = len(pokes) - slen + rng.randrange(slen - 1)
+        pokes[j] = (pokes[j][0], 0x80)
     pokes.append((DATA + soff + slen, 0))
     k = rng.choice([1, 2, 3, 4])
     for _ in range(k):
